@@ -640,6 +640,8 @@ def combinator_plan(callee, args):
             return x, OPT, [('Some', ('val', S)), ('None', ('app', args[1], [], ident))]
         if m == 'ok_or_else' and len(args) == 2:
             return x, OPT, [('Some', ('val', mk_ok(S))), ('None', ('app', args[1], [], mk_err))]
+        if m == 'unwrap_or' and len(args) == 2:
+            return x, OPT, [('Some', ('val', S)), ('None', ('val', args[1]))]
         if m == 'ok_or' and len(args) == 2:
             return x, OPT, [('Some', ('val', mk_ok(S))), ('None', ('val', mk_err(args[1])))]
         if m == 'is_some_and' and len(args) == 2:
@@ -648,6 +650,8 @@ def combinator_plan(callee, args):
             return x, OPT, [('Some', ('app', args[1], [S], ident)), ('None', ('val', ('const', 'true')))]
         if m == 'or_else' and len(args) == 2:
             return x, OPT, [('Some', ('val', x)), ('None', ('app', args[1], [], ident))]
+        if m == 'filter' and len(args) == 2 and args[1][0] == 'closure':
+            return x, OPT, [('Some', ('app', args[1], [S], ident, (lambda it: mk_some(it), NONE_TERM), S)), ('None', ('val', NONE_TERM))]
     if nc.startswith(RES + '::') and nc.count('::') == 3 and args:
         m = nc.split('::')[-1]
         x = args[0]
